@@ -238,6 +238,11 @@ func (vc *FuncVC) recursionCheck(s *State, cl *callee, pos token.Pos, ord int) {
 			e1.vars[n] = cl.args[i]
 		}
 	}
+	for i, n := range vc.c.Params {
+		if i < len(cl.args) && n != "" {
+			e1.vars[n] = cl.args[i]
+		}
+	}
 	d1 := vc.tr(e1, vc.c.Dec.E)
 	vc.oblige("dec", fmt.Sprintf("dec:recursive-call#%d", ord), vc.c.Dec.Src, pos, s.pc, and(app("Bool", "<", d1, d0), app("Bool", ">=", d0, intLit(0))))
 }
